@@ -164,10 +164,33 @@ def claimed():
         return []
 
 
+def regen_all():
+    """Regenerate every translator output (coq/Gen/*.v) from the working tree of REPO: the generated
+    theories are part of the development and must describe what the source says NOW."""
+    py = '/venv/bin/python'
+    T = os.path.join(VERIF, 'translate'); G = os.path.join(COQ, 'Gen')
+    os.makedirs(G, exist_ok=True)
+    jobs = [('effects2v', '%s %s --repo %s -o %s --json %s' % (py, os.path.join(T, 'effects2v.py'), REPO, os.path.join(G, 'Effects.v'), os.path.join(G, 'effects_table.json'))),
+            ('hashiter2v', '%s %s --repo %s -o %s' % (py, os.path.join(T, 'hashiter2v.py'), REPO, os.path.join(G, 'HashIter.v'))),
+            ('rhs2v', '%s %s --repo %s' % (py, os.path.join(T, 'rhs2v.py'), REPO))]
+    for name, cmd in jobs:
+        if not os.path.exists(os.path.join(T, name + '.py')):
+            continue
+        rc, out, dt = sh('timeout 300 ' + cmd, timeout=330, env=dict(os.environ, EON_REPO=REPO))
+        print('translator %s: %s (%.0fs) %s' % (name, 'ok' if rc == 0 else 'REFUSED rc=%d' % rc, dt, out.strip()[-200:] if rc else ''))
+    try:
+        from . import calls_lib
+        r = calls_lib.run_translator()
+        print('translator calls2v:', str(r)[:200])
+    except Exception as e:
+        print('translator calls2v: %s' % e)
+
+
 def setup():
     """MANIFEST.setup_cmd: build the whole Coq development (keep going over
     work-in-progress files that no claimed check uses), every extracted driver,
     and insist that the theorem file of every claimed property was built."""
+    regen_all()
     ok, out, dt = coq_make(keep_going=True, timeout=5400)
     print(out[-3000:])
     print('coq build: %s in %.0fs' % ('ok' if ok else 'some files failed', dt))
